@@ -104,16 +104,17 @@ def classify_known(pid, case, known):
     for k in known:
         if k.get("property") != pid or not str(k.get("status", "")).startswith("known"):
             continue
-        m = k.get("match", {})
-        if m.get("op") and m["op"] != case["op"]:
-            continue
-        if m.get("impl_re") and not re.search(m["impl_re"], case["impl"]):
-            continue
-        if m.get("args_re") and not re.search(m["args_re"], "\t".join(case["args"])):
-            continue
-        if m.get("model_re") and not re.search(m["model_re"], case["model"]):
-            continue
-        return k["id"], k.get("what", "")
+        ms = k.get("match", {})
+        for m in (ms if isinstance(ms, list) else [ms]):      # a list = alternative shapes of the same finding
+            if m.get("op") and m["op"] != case["op"]:
+                continue
+            if m.get("impl_re") and not re.search(m["impl_re"], case["impl"]):
+                continue
+            if m.get("args_re") and not re.search(m["args_re"], "\t".join(case["args"])):
+                continue
+            if m.get("model_re") and not re.search(m["model_re"], case["model"]):
+                continue
+            return k["id"], k.get("what", "")
     return None
 
 def run_correspondence(pid, P, tier, seed, work, harness, run_model, load_tsv, known, replay):
